@@ -12,6 +12,7 @@ FAM = {
     "E": ["C09", "C10", "C11", "C07"],
     "F": ["C16", "C18", "C20"],
     "G": ["C17", "C19", "C20", "C07"],
+    "H": ["C16", "C17"],  # correct uses of thread_local (the runtime models it)
 }
 want = set(a for a in sys.argv[1:] if not a.startswith("C"))
 only_props = set(a for a in sys.argv[1:] if a.startswith("C"))  # e.g. "C20": re-run these checks only and merge
@@ -37,16 +38,16 @@ for fam in sorted(FAM):
             if code != 0:
                 bad += 1
             print(f"{fam} {os.path.basename(patch):8s} {pid} {'silent' if code == 0 else 'ALARM rc=%d %s' % (code, row['alarm'])} ({row['wall_s']}s)", flush=True)
-if only_props and not want:
-    # merge the re-run rows into the existing table
+if only_props or want:
+    # merge the re-run rows into the existing table (replace rows with the same key, append new ones)
     path = os.path.join(ROOT, "evidence", "neutral.json")
     old = json.load(open(path))
     key = lambda r: (r["change"], r["property"])
     fresh = {key(r): r for r in rows}
-    merged = [fresh.get(key(r), r) for r in old["results"]]
+    merged = [fresh.pop(key(r), r) for r in old["results"]] + list(fresh.values())
     old["results"] = merged
     json.dump(old, open(path, "w"), indent=1)
-elif not want:
+else:
     json.dump(dict(note="quick checks run on scratch copies with behaviour-preserving changes applied; every entry must be silent (exit 0)",
                    results=rows), open(os.path.join(ROOT, "evidence", "neutral.json"), "w"), indent=1)
 print(f"{len(rows) - bad}/{len(rows)} silent")
